@@ -376,6 +376,10 @@ pub const VARIANTS: &[Variant] = &[
     // 48-bit address spaces (modules and stacks above 2^47) are a Linux / Android thing
     Variant { arch: Arch::Arm64, os: Os::Android, techs: &[Tech::Cfi, Tech::Fp, Tech::Scan, Tech::Leaf], mix: false },
     Variant { arch: Arch::Arm64Old, os: Os::Linux, techs: &[Tech::Cfi, Tech::Fp, Tech::Scan, Tech::Leaf], mix: false },
+    // 32-bit ARM: r11 is a frame pointer on iOS only; every other operating system walks without it
+    Variant { arch: Arch::Arm, os: Os::MacOs, techs: &[Tech::Cfi, Tech::Scan, Tech::Leaf], mix: false },
+    Variant { arch: Arch::Arm, os: Os::Windows, techs: &[Tech::Cfi, Tech::Scan, Tech::Leaf], mix: false },
+    Variant { arch: Arch::Arm, os: Os::Linux, techs: &[Tech::Cfi, Tech::Scan, Tech::Leaf], mix: false },
 ];
 
 /// Frame-size menu (words). choice 0: small; 1: the scan-window edge (return address in the
